@@ -4,7 +4,7 @@ import re
 
 from sa.algebra import Evaluator, Facts, Poly, Undecided
 from sa.cfg import CFG, conjuncts
-from sa.common import chain_root, expand_name, returns_of
+from sa.common import chain_root, expand_name, returns_of, expand_property
 from sa.defuse import DefUse, loc_name
 from sa.model import AnalysisError, AnchorMissing, const_value, src, walk_function
 from sa.struct import call_name, find, kwarg, norm
@@ -136,6 +136,7 @@ def d2_order(ctx):
         raise AnchorMissing("Reader.open: np.memmap call not found")
     m = mm[0]
     shp = kwarg(m, "shape")
+    shp = expand_property(repo, fi, shp) if shp is not None else None  # Reader.shape is (self.ns, self.nc)
     ok = isinstance(shp, ast.Tuple) and [src(e) for e in shp.elts] == ["self.ns", "self.nc"]
     ctx.check(ok, fi, m, m, "memmap shape is (self.ns, self.nc)", f"memmap shape is `{src(shp) if shp else None}`", key="memmap-shape")
     md = kwarg(m, "mode")
